@@ -271,6 +271,37 @@ def multi_configs(part=4, buf=2, sema=2):
     return [c for c in out if predict(c) is not None]
 
 
+BUFFERS = (2, 3, 4, 8)
+PAIRS = ('local-local', 'local-azure', 'azure-local')
+
+
+def part_sizes(buf):
+    """below, equal to, a multiple of, and non-multiples above the transfer buffer"""
+    ps = [buf - 1, buf, 2 * buf, buf + 1, 2 * buf + 1]
+    if (2 * buf + 2) % buf:
+        ps.append(2 * buf + 2)
+    return ps
+
+
+def grid_configs(pairs=PAIRS, buffers=BUFFERS):
+    """Transfer buffer x part size x file size 0..3*part+2: one file copied to an exact new target."""
+    out = []
+    for pair in pairs:
+        for buf in buffers:
+            for part in part_sizes(buf):
+                for size in range(0, 3 * part + 3):
+                    c = _cfg(f'grid {pair}: buf={buf} part={part} file size={size}', {'S/a': size}, [], [], [['S/a', 'D/x', DEST_IS_TARGET]],
+                             part, buf, 50)
+                    c['pair'] = pair
+                    out.append(c)
+                # the same through a directory source copied into a directory (two files around the part boundary)
+                c = _cfg(f'grid {pair}: buf={buf} part={part} dir with sizes {part + buf + 1},{2 * part}',
+                         {'S/a/f1': part + buf + 1, 'S/a/f2': 2 * part}, [], [], [['S/a', 'D/x/', DEST_DIR]], part, buf, 2)
+                c['pair'] = pair
+                out.append(c)
+    return out
+
+
 # --------------------------------------------------------------------------------------------
 # One execution
 # --------------------------------------------------------------------------------------------
@@ -415,17 +446,168 @@ class _FakeBar:
         pass
 
 
-def _install_knobs(cfg):
-    """Force small part/buffer sizes from outside (class attributes); own the terminal widgets."""
-    from hailtop.aiotools import copy as copy_mod
-    from hailtop.aiotools.fs.copier import Copier
-    from hailtop.aiotools.local_fs import LocalAsyncFS
+_MISSING = object()
 
-    part = cfg['part']
-    LocalAsyncFS.copy_part_size = staticmethod(lambda url, _p=part: _p)
-    Copier.BUFFER_SIZE = cfg['buf']
-    copy_mod.CopyToolProgressBar = _FakeBar
-    copy_mod.make_listener = lambda progress, tid: (lambda delta: None)
+
+class _Knobs:
+    """Force small part / buffer sizes from outside (class attributes) and own the terminal widgets
+    for ONE execution; every attribute is put back (or removed again) afterwards."""
+
+    def __init__(self, cfg):
+        self.cfg = cfg
+        self.saved = []
+
+    def _set(self, obj, name, value):
+        self.saved.append((obj, name, obj.__dict__.get(name, _MISSING)))
+        setattr(obj, name, value)
+
+    def __enter__(self):
+        from hailtop.aiocloud.aioazure.fs import AzureAsyncFS
+        from hailtop.aiotools import copy as copy_mod
+        from hailtop.aiotools.fs.copier import Copier
+        from hailtop.aiotools.local_fs import LocalAsyncFS
+
+        part = self.cfg['part']
+        self._set(LocalAsyncFS, 'copy_part_size', staticmethod(lambda url, _p=part: _p))
+        self._set(AzureAsyncFS, 'copy_part_size', staticmethod(lambda url, _p=part: _p))
+        self._set(Copier, 'BUFFER_SIZE', self.cfg['buf'])
+        self._set(copy_mod, 'CopyToolProgressBar', _FakeBar)
+        self._set(copy_mod, 'make_listener', lambda progress, tid: (lambda delta: None))
+        return self
+
+    def __exit__(self, *a):
+        for obj, name, old in reversed(self.saved):
+            if old is _MISSING:
+                delattr(obj, name)
+            else:
+                setattr(obj, name, old)
+        self.saved = []
+        return False
+
+
+# ---- a write-capable fake of the Azure Blob SDK (the one cloud backend on the copy path) ----------
+AZ_ACCOUNT, AZ_CONTAINER = 'acct', 'bkt'
+AZ_BASE = f'https://{AZ_ACCOUNT}.blob.core.windows.net/{AZ_CONTAINER}/'
+
+
+def make_azure_fs(objects):
+    """Real AzureAsyncFS over an in-memory container `objects: name -> bytes` (SDK semantics as in C23:
+    download_blob(offset, length), 416 past the end; block blobs: stage_block + commit_block_list)."""
+    import azure.core.exceptions as az
+
+    from hailtop.aiocloud.aioazure.fs import AzureAsyncFS
+
+    class HttpResponseError(az.HttpResponseError):
+        def __init__(self, message, status_code):
+            super().__init__(message)
+            self.status_code = status_code
+
+    class ResourceNotFoundError(az.ResourceNotFoundError):
+        def __init__(self, message='The specified blob does not exist.'):
+            super().__init__(message)
+            self.status_code = 404
+
+    class Props:
+        def __init__(self, name, size):
+            self.name = name
+            self.size = size
+
+    class Downloader:
+        def __init__(self, body):
+            self._body = body
+
+        async def readall(self):
+            return self._body
+
+        def chunks(self):
+            async def it():
+                if self._body:
+                    yield self._body
+
+            return it()
+
+    class BlobClient:
+        def __init__(self, name):
+            self.name = name
+            self.staged = {}
+
+        async def exists(self):
+            return self.name in objects
+
+        async def get_blob_properties(self):
+            if self.name not in objects:
+                raise ResourceNotFoundError()
+            return Props(self.name, len(objects[self.name]))
+
+        async def download_blob(self, offset=None, length=None, **kwargs):
+            if length is not None and offset is None:
+                raise ValueError('Offset value must not be None if length is set.')
+            if self.name not in objects:
+                raise ResourceNotFoundError()
+            data = objects[self.name]
+            if offset is None:
+                return Downloader(data)
+            if offset >= len(data):
+                raise HttpResponseError('The range specified is invalid for the current size of the resource.', 416)
+            return Downloader(data[offset: len(data) if length is None else min(len(data), offset + length)])
+
+        async def stage_block(self, block_id, data, **kwargs):
+            if not isinstance(data, (bytes, bytearray)):
+                data = b''.join(bytes(c) for c in data)
+            self.staged[block_id] = bytes(data)
+
+        async def commit_block_list(self, block_list, **kwargs):
+            out = []
+            for b in block_list:
+                if b not in self.staged:
+                    raise HttpResponseError('The specified block list is invalid.', 400)
+                out.append(self.staged[b])
+            objects[self.name] = b''.join(out)
+            self.staged = {}
+
+        async def delete_blob(self, **kwargs):
+            if self.name not in objects:
+                raise ResourceNotFoundError()
+            del objects[self.name]
+
+    class ContainerClient:
+        def list_blobs(self, name_starts_with=None, include=None):
+            names = sorted(n for n in objects if n.startswith(name_starts_with or ''))
+
+            async def it():
+                for n in names:
+                    yield Props(n, len(objects[n]))
+
+            return it()
+
+        def walk_blobs(self, name_starts_with=None, include=None, delimiter='/'):
+            names = sorted(n for n in objects if n.startswith(name_starts_with or ''))
+
+            async def it():
+                for n in names:
+                    yield Props(n, len(objects[n]))
+
+            return it()
+
+    clients = {}
+
+    class ServiceClient:
+        def get_blob_client(self, container, blob):
+            # one client object per blob, as staged (uncommitted) blocks belong to the blob on the service
+            return clients.setdefault(blob, BlobClient(blob))
+
+        def get_container_client(self, container):
+            return ContainerClient()
+
+        async def close(self):
+            pass
+
+    fs = object.__new__(AzureAsyncFS)  # the constructor only resolves credentials and timeouts
+    fs.read_timeout = 5
+    fs.connection_timeout = 5
+    fs._credential = None
+    fs._blob_service_clients = {(AZ_ACCOUNT, AZ_CONTAINER, None): ServiceClient()}
+    return fs
 
 
 def _both_fs_class():
@@ -457,13 +639,22 @@ def make_run_one(cfg):
         raise HarnessError(f'non-commuting transfers in {cfg["label"]}')
     exp_errors, exp_files = pred
     root = os.path.join(_root(), 'r')
+    pair = cfg.get('pair', 'local-local')
+    side = dict(zip('SD', pair.split('-')))  # which backend holds the source tree S/ and the destination tree D/
 
     def absp(p):
+        if side[p[0]] == 'azure':
+            return AZ_BASE + p
         return os.path.join(root, p) if not p.endswith('/') else os.path.join(root, p.rstrip('/')) + '/'
 
     def run_one(chooser):
-        _install_knobs(cfg)
-        _materialize(cfg, root)
+        with _Knobs(cfg):
+            return run_one_(chooser)
+
+    def run_one_(chooser):
+        local_cfg = dict(cfg, files={p: n for p, n in cfg['files'].items() if side[p[0]] == 'local'})
+        _materialize(local_cfg, root)
+        objects = {p: content(p, n) for p, n in cfg['files'].items() if side[p[0]] == 'azure'}
         random.seed(0)
         loop = IOLoop(chooser)
         box = {}
@@ -481,6 +672,8 @@ def make_run_one(cfg):
                 klass = _both_fs_class()
                 klass.both = tuple(os.path.join(root, b) for b in cfg['both'])
                 fs._local_fs = klass(thread_pool=_InlineExecutor())  # type: ignore[arg-type]
+            if 'azure' in side.values():
+                fs._azure_fs = make_azure_fs(objects)
             async with fs:
                 sema = asyncio.Semaphore(cfg['sema'])
                 async with sema:  # bounded_gather2 expects the caller to hold one permit (as copy() and the repo's tests do)
@@ -499,8 +692,13 @@ def make_run_one(cfg):
         if isinstance(exc, (HarnessError, boot.ShimGap)):
             raise exc
         got_exc = type(exc).__name__ if exc is not None else None
-        got_files = _read_tree(os.path.join(root, 'D'))
-        src_now = _read_tree(os.path.join(root, 'S'))
+        def tree(letter):
+            if side[letter] == 'azure':
+                return {n[2:]: v for n, v in objects.items() if n.startswith(letter + '/')}
+            return _read_tree(os.path.join(root, letter))
+
+        got_files = tree('D')
+        src_now = tree('S')
         src_before = {p[2:]: content(p, n) for p, n in cfg['files'].items() if p.startswith('S/')}
         outcome = (got_exc, tuple(sorted((k, v.hex()) for k, v in got_files.items())))
         if viol is None and src_now != src_before:
@@ -571,14 +769,17 @@ def plan(tier):
     multis = multi_configs()
     items = []
     if tier == 'quick':
-        deep_src = ('file5[', 'file9[', 'file8[', 'dir2:4,5[', 'nested:5,8[S/a]', 'both:5,8[S/a]', 'missing[S/a]')
-        deep_dst = ('-> absent (', '-> nested-absent (', '-> dir (', '-> file (', '-> dir-with-dir-a (')
+        deep_src = ('file5[', 'file9[', 'dir2:4,5[', 'nested:5,8[S/a]', 'both:5,8[S/a]', 'missing[S/a]')
+        deep_dst = ('-> absent (', '-> nested-absent (', '-> dir (', '-> file (')
         for c in singles:
             deep = c['label'].startswith(deep_src) and any(d in c['label'] for d in deep_dst)
             items.append((c, 1 if deep else 0))
         for c in multis:
             deep = ('file9' in c['label'] or 'dir2' in c['label']) and 'file5' in c['label']
             items.append((c, 1 if deep else 0))
+        deep_grid = ('buf=2 part=5 file size=8', 'buf=4 part=10 file size=11', 'buf=3 part=4 file size=9', 'buf=2 part=3 dir with')
+        for c in grid_configs():
+            items.append((c, 1 if c['label'].endswith(deep_grid) or any(g in c['label'] for g in deep_grid[3:]) else 0))
         # the copy() entry point (GrowingSempahore + RouterAsyncFS built by the tool itself), asyncio's own order
         for c in single_configs(sizes=(0, 5, 9), api='copy()'):
             if not c['both']:  # the file-and-directory source needs the harness's LocalAsyncFS subclass; copy() builds its own
@@ -596,9 +797,13 @@ def plan(tier):
         for c in multis:
             if c['label'] in ('2 transfers: file4 & file5 -> same-new-nested-dir', 'list source: file4 + file5 -> new-dir (infer_dest)'):
                 items.append((c, 2))
+        for c in grid_configs(buffers=BUFFERS + (5,)):
+            items.append((c, 1 if c['part'] > c['buf'] and c['part'] % c['buf'] and c['files'].get('S/a', 0) in (c['part'] + 1, 2 * c['part'] + c['buf'] + 1) else 0))
         for c in single_configs(part=3, buf=3, sema=2):
             items.append((c, 0))
         for c in single_configs(part=5, buf=1):
+            items.append((c, 0))
+        for c in single_configs(part=5, buf=2):
             items.append((c, 0))
         for c in single_configs(api='copy()'):
             if not c['both']:
